@@ -67,6 +67,7 @@ theorem recvSession_phase (c : Cfg) (s : St) (p : Phase) (h : P c s p)
     simp only [P, ht, obs_recv, phaseOf, h, Option.bind_some]
     cases r with
     | ses x => exact absurd rfl (hr x)
+    | sesGone x => rcases hp with rfl | ⟨co, eo, rfl⟩ | rfl <;> rfl
     | other => rcases hp with rfl | ⟨co, eo, rfl⟩ | rfl <;> rfl
     | fail b => rcases hp with rfl | ⟨co, eo, rfl⟩ | rfl <;> rfl
 
